@@ -65,7 +65,8 @@ def inside(b, vals):
     """independent interval membership (not the code's check_arg_in_bounds)"""
     lo, hi, lc, hc = b
     v = np.atleast_1d(np.asarray(vals, dtype=float))
-    v = v[~np.isnan(v)]      # NaN (e.g. TPL variance factor of a negative length scale) is outside the quantifier space
+    if np.isnan(v).any():
+        return False                                   # NaN lies in no interval
     ok_lo = (v >= lo) if lc else (v > lo)
     ok_hi = (v <= hi) if hc else (v < hi)
     return bool(np.all(ok_lo & ok_hi))
@@ -344,6 +345,18 @@ def gen_list(rng, first, n, bad):
 
 def gen_op(rng, cls, o, optn):
     """one assignment, given the current observation o of the implementation"""
+    op = _gen_op(rng, cls, o, optn)
+    if rng.random() < 0.03 and op["k"] in ("var", "var_raw", "nugget", "opt", "len_scale", "anis", "integral_scale"):
+        # non-finite value: NaN lies in no interval and must be rejected (scalar, or one element of a list)
+        if isinstance(op["v"], list):
+            if op["v"]:
+                op["v"][int(rng.integers(len(op["v"])))] = float("nan")
+        else:
+            op["v"] = float("nan")
+    return op
+
+
+def _gen_op(rng, cls, o, optn):
     d = o["dim"]
     kinds = ["var", "var_raw", "nugget", "len_scale", "anis", "angles", "rescale", "dim", "set_arg_bounds", "bounds_prop"]
     w = [0.10, 0.07, 0.10, 0.16, 0.10, 0.08, 0.06, 0.10, 0.09, 0.03]
@@ -672,6 +685,11 @@ class History:
         st, val = model_construct(self.drv, self.ci, margs)
         if ierr is not None:
             if st != "err" or not self.same_err(ierr, val, kw.get("len_low", 0.0) < 0):
+                if ierr[0] == 0 and ierr[2] in (3, 4) and ierr[1] in (0, 1, 3):
+                    # var / len_scale / anis overflowed to inf and hit the infinite upper end of the default bounds
+                    # (None in the model): values equal to an infinity are outside the modelled space
+                    self.ctx.count(None, hist=dict(outcome="infinite value rejected (history ends, not compared)"))
+                    return False
                 self.tie_bad.append(dict(at="construct", impl=str(ierr), model=[st, str(val)]))
             return False
         if st == "err":
@@ -821,6 +839,11 @@ class History:
             must_reject = "len_scale"
         elif k in ("var", "var_raw") and self.cls not in TPL and not inside(b[0], op["v"]):
             must_reject = "var"
+        d0 = before["dim"]
+        if must_reject is None and k in ("len_scale", "integral_scale") and np.isnan(np.array(op["v"][:d0], dtype=float)).any():
+            must_reject = "len_scale"                           # a NaN scale or ratio lies in no interval
+        if must_reject is None and k == "anis" and np.isnan(np.array(op["v"][:max(d0 - 1, 0)], dtype=float)).any():
+            must_reject = "anis"
         try:
             apply_impl(self.m, op, self.optn)
             ierr = None
@@ -832,11 +855,13 @@ class History:
         except (ZeroDivisionError, FloatingPointError, OverflowError):
             ctx.count(None, hist=dict(outcome="arith-exception (history ends, not compared)"))
             return False
-        if ierr is not None and ierr[0] == 0 and not math.isfinite(b[ierr[1]][0 if ierr[2] in (1, 2) else 1]):
-            # a value overflowed to +-inf and hit an infinite bound end: infinite values are outside the modelled space
+        st, val = apply_model(self.drv, self.ci, self.ms, op, self.optn)
+        if ierr is not None and ierr[0] == 0 and not math.isfinite(b[ierr[1]][0 if ierr[2] in (1, 2) else 1]) \
+                and not (st == "err" and tuple(val) == tuple(ierr)):
+            # a value overflowed to +-inf and hit an infinite bound end (None in the model, which only rejects NaN there):
+            # values equal to an infinity are outside the modelled space
             ctx.count(None, hist=dict(outcome="infinite value rejected (history ends, not compared)"))
             return False
-        st, val = apply_model(self.drv, self.ci, self.ms, op, self.optn)
         outcome = "ok" if ierr is None else ERR[ierr[0]]
         ctx.count((self.cls, self.kind, k, outcome), hist=dict(op=k, outcome=outcome, cls=self.cls, kind=self.kind,
                                                                 dim=before["dim"]))
@@ -1319,6 +1344,131 @@ def run_alias(ctx, cfg):
             return
 
 
+# --------------------------------------------------------------------------- non-finite values in every route (implementation only)
+
+def nonfinite_probe(ctx, quick=False):
+    """NaN / +-inf as a parameter value, scalar or inside a list, through constructor and setter: every parameter with
+    documented bounds (var, len_scale, nugget, anis, optional arguments; integral_scale defines len_scale) must reject
+    them - NaN lies in no interval, a NaN / infinite entry of a length-scale list gives a NaN / 0 / infinite ratio or
+    scale, all outside (0, inf).  Not judged: angles and rescale (no documented bounds)."""
+    g = gs()
+    nan = float("nan")
+    reported = set()
+    n = 0
+    for cls in CLASSES:
+        if quick and cls not in ("Gaussian", "Stable", "Matern", "Cubic", "TPLStable", "TPLSimple", "JBessel"):
+            continue
+        Cls = getattr(g, cls)
+        for kind, ll, tt in KINDS:
+            base = dict(latlon=ll, temporal=tt)
+            if not ll:
+                base["dim"] = 3
+            ref = Cls(**base)
+            forms = {
+                "var": [nan, INF, -INF], "var_raw": [nan, INF, -INF], "nugget": [nan, INF, -INF],
+                "len_scale": [nan, INF, -INF, [nan], [1.0, nan], [nan, 1.0], [1.0, 2.0, nan], [1.0, INF], [INF, 1.0], [1.0, -INF]],
+                "anis": [nan, INF, [nan], [0.5, nan], [nan, 0.5], [0.5, INF]],
+            }
+            if cls in QUAD_OK:
+                forms["integral_scale"] = [nan, [nan], [1.0, nan], [nan, 1.0], [1.0, INF], INF]
+            for on in list(ref.arg_bounds)[4:]:
+                forms[on] = [nan] if cls in TPL else [nan, INF, -INF]
+            if cls in TPL:
+                forms["var"], forms["var_raw"] = [nan], [nan]
+            if ll:
+                # lat-lon: the spatial ratios are overwritten by 1 (space stays isotropic), so an infinite entry in
+                # such a position is legitimately ignored; NaN is still refused by the ratio test
+                for q in ("len_scale", "anis", "integral_scale"):
+                    if q in forms:
+                        forms[q] = [v for v in forms[q] if "inf" not in str(v) or (q != "anis" and not isinstance(v, list))]
+            for pname, vs in forms.items():
+                for v in vs:
+                    for via in ("constructor", "setter"):
+                        cp = lambda x: list(x) if isinstance(x, list) else x
+                        if via == "constructor":
+                            got = _accepted(lambda: Cls(**base, **{pname: cp(v)}))
+                        else:
+                            m = Cls(**base)
+                            got = _accepted(lambda: setattr(m, pname, cp(v)))
+                        n += 1
+                        ptype = pname if pname in ("var", "var_raw", "nugget", "len_scale", "anis", "integral_scale") else "opt"
+                        ctx.count(("non-finite", cls, kind, ptype, via), hist=dict(op="non-finite"))
+                        if got is not True:
+                            continue
+                        form = ("list" if isinstance(v, list) else "scalar") + ":" + ("nan" if "nan" in str(v) else "inf")
+                        key = "non-finite:%s:%s:%s" % (ptype, form, via)
+                        if key in reported:
+                            continue
+                        reported.add(key)
+                        ops = [] if via == "constructor" else [dict(k="opt" if ptype == "opt" else pname, v=v)]
+                        ctx.violation("probe: non-finite parameter value accepted (%s)" % via,
+                                      "%s (%s): %s = %r is accepted (%s); NaN / infinite values lie outside every documented interval" % (cls, kind, pname, v, via),
+                                      dict(probe="non-finite", cls=cls, kind=kind, parameter=pname, value=repr(v), via=via), key=key)
+    ctx.notes.append("non-finite probe: %d constructor calls / assignments with NaN or infinite values" % n)
+
+
+# --------------------------------------------------------------------------- bounds on coupled quantities (histories through the model too)
+
+def run_coupled(ctx, drv, rng, cls, kind, latlon, temporal, tie_log):
+    """finite bounds assigned to a quantity that OTHER parameters move (TPL variance <- hurst, len_low, len_scale;
+    ratios <- list-valued len_scale / integral_scale / dim; len_scale <- integral_scale), then assignments of those other
+    parameters: an accepted assignment must leave every parameter inside its bounds (the Coq invariant InB)."""
+    h = History(ctx, drv, cls, kind, latlon, temporal)
+    for _ in range(6):
+        kw, given, margs, eff = gen_ctor(rng, cls, latlon, temporal, drv, h.ci)
+        kw.pop("integral_scale", None); margs.pop("int", None)
+        for i, v in given.items():
+            kw[names_of(cls)[4 + int(i)]] = v
+        h = History(ctx, drv, cls, kind, latlon, temporal)
+        if h.construct(kw, margs):
+            break
+    else:
+        return
+    o = h.o
+    d = o["dim"]
+    scripts = ["len"]
+    if cls in TPL and math.isfinite(o["var"]) and o["var"] > 0:
+        scripts += ["var-tpl"] * 3
+    if d >= 2 and not latlon:
+        scripts += ["anis"] * 2
+    sc = scripts[int(rng.integers(len(scripts)))]
+    f = lambda: float(rng.choice([0.2, 0.5, 2.0, 5.0]))
+    if sc == "var-tpl":
+        ops = [dict(k="set_arg_bounds", chk=True, kw=[("var", (o["var"] * 0.7, o["var"] * 1.3, "cc"))])]
+        cands = [dict(k="opt", i=0, v=float(rng.uniform(0.12, 0.98))),
+                 dict(k="opt", i=len(h.optn) - 1, v=pos(rng) * 2),
+                 dict(k="len_scale", v=[o["len_scale"] * f()], scalar=True),
+                 dict(k="len_scale", v=[o["len_scale"] * f()] + [pos(rng) for _ in range(d - 1)], scalar=False)]
+    elif sc == "anis":
+        lo, hi = float(np.min(o["anis"])) * 0.8, float(np.max(o["anis"])) * 1.2
+        ops = [dict(k="set_arg_bounds", chk=True, kw=[("anis", (lo, hi, "cc"))])]
+        cands = [dict(k="len_scale", v=[o["len_scale"]] + [o["len_scale"] * f() for _ in range(d - 1)], scalar=False),
+                 dict(k="dim", v=d + 1), dict(k="anis", v=[f()], scalar=True)]
+        if cls in CLOSED_INT:
+            cands.append(dict(k="integral_scale", v=[1.0] + [f() for _ in range(d - 1)], scalar=False))
+    else:
+        ops = [dict(k="set_arg_bounds", chk=True, kw=[("len_scale", (o["len_scale"] * 0.7, o["len_scale"] * 1.3, "cc"))])]
+        cands = [dict(k="len_scale", v=[o["len_scale"] * f()], scalar=True), dict(k="dim", v=max(1, d - 1))]
+        if cls in CLOSED_INT:
+            cands += [dict(k="integral_scale", v=[o["len_scale"] * f()], scalar=True)] * 2
+    ops += [cands[int(rng.integers(len(cands)))] for _ in range(2)]
+    ctx.count((cls, kind, "coupled-bounds", sc), hist=dict(op="coupled-bounds:" + sc))
+    alive = True
+    for op in ops:
+        if not h.step(op):
+            alive = False
+            break
+    if alive:
+        for _ in range(3):
+            if not h.step(gen_op(rng, cls, h.o, h.optn)):
+                alive = False
+                break
+    if alive:
+        h.fresh_probe(rng)
+    if h.tie_bad:
+        tie_log.append(dict(case=h.case(), disagreements=h.tie_bad[:3]))
+
+
 # --------------------------------------------------------------------------- boundary sweep (implementation only)
 
 ITYPES = ["oo", "oc", "co", "cc"]
@@ -1405,10 +1555,13 @@ def boundary_sweep(ctx, only_cls=None, quick=False):
                         vals += [e, float(np.nextafter(e, INF)), float(np.nextafter(e, -INF))]
                     elif not tpl or pname == "nugget":
                         vals.append(e)
+                if not tpl or pname == "nugget":
+                    vals += [v for v in (INF, -INF) if v not in vals]   # an infinity is outside unless the end is closed at it
                 if pname == "anis":
                     vals = [v for v in vals if v > 0]          # ratios <= 0 are rejected before any bounds check
                 if tpl and pname != "nugget":
                     vals = [v for v in vals if math.isfinite(v)]
+                vals.append(float("nan"))                      # NaN lies in no interval: always to be rejected
                 if pname == "len_low":
                     vals = [v for v in vals if v >= 0 or not tpl]
 
@@ -1492,7 +1645,7 @@ def setup(ctx):
     ctx.not_proved = [
         "object state after a raising assignment (the code assigns before it checks): a raising assignment ends the history",
         "integral_scale of the 11 classes that integrate the correlation numerically (scipy quad) is not modelled in Coq (setter and constructor argument); covered model-free by the constructor-vs-history probe",
-        "NaN / infinite parameter values (NaN passes check_arg_in_bounds because every comparison is false): outside the real-valued quantifier space",
+        "values equal to +-inf at an infinite bound end are not modelled (None end: only NaN fails there); NaN / inf for angles and rescale are not judged (no documented bounds)",
         "rescale = 0 (division by zero in len_rescaled)",
         "fit_variogram, hankel_kw / spectrum objects, plotting: not parameter assignments",
         "C14_reachable_equals_fresh excludes `dim` on SuperSpherical, JBessel, TPLSimple: refuted there (C14_fresh_after_dim_refuted, open finding)",
@@ -1542,6 +1695,12 @@ def run(ctx):
                         run_cvs(ctx, gen_cvs(rng, cls, kind, ll, tt))
                         if rep % 2 == 0:
                             run_alias(ctx, gen_alias(rng, cls, kind, ll, tt))
+            nonfinite_probe(ctx, quick=(ctx.tier == "quick"))
+            for rep in range(2 if ctx.tier == "quick" else 10):
+                for cls in CLASSES:
+                    for kind, ll, tt in KINDS:
+                        if cls in TPL or rep % 2 == 0:
+                            run_coupled(ctx, drv, rng, cls, kind, ll, tt, tie_log)
             t3 = time.time()
             ctx.notes.append("stage times: boundary sweep %.0fs, constructor-vs-history + aliasing probes %.0fs" % (t2 - t1, t3 - t2))
             per = 3 if ctx.tier == "quick" else 24
@@ -1585,6 +1744,9 @@ def replay(ctx, path):
         return ctx.finish()
     if case.get("probe") == "alias":
         run_alias(ctx, case)
+        return ctx.finish()
+    if case.get("probe") == "non-finite":
+        nonfinite_probe(ctx)
         return ctx.finish()
     if case.get("sweep"):
         boundary_sweep(ctx, only_cls=case["cls"])
